@@ -63,10 +63,15 @@ Arguments Err {A} e.
    v_base_name : a relative link is resolved against dirname of the
                  TRANSCODED member name (pinned: of zipfile's cp437 decoding);
    v_dot_root  : a relative link whose normalised target is "." denotes the
-                 archive root (pinned: looked up as a member called "."). *)
-Record variant := mkv { v_clear_inv : bool; v_base_name : bool; v_dot_root : bool }.
-Definition pinned : variant := mkv false false false.
-Definition repaired : variant := mkv true true true.
+                 archive root (pinned: looked up as a member called ".");
+   v_delegate  : a selector that is neither the archive nor below it (the target of a
+                 gophermap / link-file entry pointing out of the archive, a URL:
+                 selector) is answered by the file system the archive lives in
+                 (pinned: len(archive name) characters are cut off ANY selector and
+                 the rest is looked up in the archive). *)
+Record variant := mkv { v_clear_inv : bool; v_base_name : bool; v_dot_root : bool; v_delegate : bool }.
+Definition pinned : variant := mkv false false false false.
+Definition repaired : variant := mkv true true true true.
 
 (* ---------- phase 1: directory synthesis, files, links collected ---------- *)
 (* for level in dir_.split("/"): skip ""; create if missing; descend *)
@@ -450,8 +455,14 @@ Definition qcomps (s : str) : list str := match s with [] => [] | _ => split_on 
 (* ---------- the six VFS operations as one function ---------- *)
 Inductive vop := VStat | VIsdir | VIsfile | VExists | VListdir | VOpen.
 Inductive vres := RExc | RBool (b : bool) | RStatDir | RStatReg (size : N) | RNames (l : list str) | RData (d : list N).
-Definition vfs_op (ms : list member) (t : tbl) (c : caches) (zlen : nat) (op : vop) (sel : str) : vres * caches :=
-  let (l, c') := vfs_lookup t c (zfspath zlen sel) in
+(* VFSZip._inarchive: the selector is the archive itself or lies below it *)
+Definition inarchive (zname sel : str) : bool := str_eqb sel zname || prefixb (zname ++ [SL]) sel.
+
+(* `chain` is what the file system the archive lives in (self.chain) answers to the same call *)
+Definition vfs_op (v : variant) (ms : list member) (t : tbl) (c : caches) (zname : str) (op : vop) (sel : str)
+    (chain : vres) : vres * caches :=
+  if v_delegate v && negb (inarchive zname sel) then (chain, c) else
+  let (l, c') := vfs_lookup t c (zfspath (length zname) sel) in
   (match op, l with
    | VStat, LAbsent => RExc
    | VStat, LDir _ => RStatDir
